@@ -28,6 +28,8 @@ Oracles (a from Kepler's third law for the n passed; C, masses as passed)
            terms).  Measured: bit-identical in 1200 calibration cases.
   route    the case's route and the canonical route (quick_*, every quantity as a frequency) give the same da/dt, de/dt,
            dOmega_i/dt, heating_i: same tolerance as `array`; energy/momentum are evaluated on the routed call at the requested state.
+  history  (array cases) two more calls of the same entry point with the same ndarray objects overwritten in place by the next
+           generated state (second: e = 0) equal, bit for bit, calls with fresh arrays; de/dt = 0 where e = 0 (tides_common.history_check).
   inputs_not_mutated  no keyword argument (arrays, tuples of arrays, dicts) is modified by any call.
 Non-trivial: at least one body non-synchronous and e > 0.
 Generator domain: e, spin/n, obliquity are exactly 0 or >= 1e-6, 1e-6, 1e-3 (subnormal products otherwise, see C10); the
@@ -124,7 +126,7 @@ def required_labels(tier):
     return ['kind:single', 'kind:dual', 'e:zero', 'e:pos', 'e:none', 'scalar', 'array', 'momentum:checked', 'momentum:oblique',
             'spin:sync', 'spin:nonsync', 'spin:retrograde', 'entry:quick', 'entry:from_dict', 'orbit:period',
             'orbit:frequency', 'spinroute:period', 'spinroute:frequency', 'spinroute:mixed', 'route:noncanonical',
-            'route:canonical'] + ['rheo:' + r for r in tc.DISSIPATIVE]
+            'route:canonical', 'history:checked'] + ['rheo:' + r for r in tc.DISSIPATIVE]
 
 
 def in_domain(case):
@@ -135,33 +137,33 @@ def _full(v, k):
     return np.asarray(v, dtype=float) * np.ones(k)
 
 
-def _call(su, j=None, canonical=False):
-    """-> dict(da, de, bodies=[dict(heating, dspin, dUdM, dUdw, dUdO)], fn, mutated) as arrays (j=None) or for element j.
-    canonical=False: the case's input routes (frequency | period per quantity, None vs (None, None) tuples, quick_* or
-    *_from_dict_or_world_instance entry point); canonical=True: quick_* with every quantity as a frequency."""
+def _build(su, j=None, canonical=False):
+    """(entry-point name, function, keyword arguments) for the case's route (or the canonical one)."""
     from TidalPy.toolbox import quick_tides as qt
-    k = su.k if j is None else 1
     from_dict = su.entry == 'from_dict' and not canonical
     if su.dual:
         kw = tc.dual_kwargs(su, j, canonical=canonical)
         if from_dict:
-            name, fn, kw = 'dual_dissipation_from_dict_or_world_instance', qt.dual_dissipation_from_dict_or_world_instance, \
+            return 'dual_dissipation_from_dict_or_world_instance', qt.dual_dissipation_from_dict_or_world_instance, \
                 tc.dual_from_dict_kwargs(kw)
-        else:
-            name, fn = 'quick_dual_body_tidal_dissipation', qt.quick_dual_body_tidal_dissipation
-        res = tc.call_repo(name, fn, **kw)
-        per = [res['host'], res['secondary']]
-    else:
-        kw = tc.single_kwargs(su, su.bodies[0], j, derivatives=True, canonical=canonical)
-        if from_dict:
-            name, fn, kw = 'single_dissipation_from_dict_or_world_instance', qt.single_dissipation_from_dict_or_world_instance, \
-                tc.single_from_dict_kwargs(kw)
-        else:
-            name, fn = 'quick_tidal_dissipation', qt.quick_tidal_dissipation
-        res = tc.call_repo(name, fn, **kw)
-        per = [res]
+        return 'quick_dual_body_tidal_dissipation', qt.quick_dual_body_tidal_dissipation, kw
+    kw = tc.single_kwargs(su, su.bodies[0], j, derivatives=True, canonical=canonical)
+    if from_dict:
+        return 'single_dissipation_from_dict_or_world_instance', qt.single_dissipation_from_dict_or_world_instance, \
+            tc.single_from_dict_kwargs(kw)
+    return 'quick_tidal_dissipation', qt.quick_tidal_dissipation, kw
+
+
+def _call(su, j=None, canonical=False):
+    """-> dict(da, de, bodies=[dict(heating, dspin, dUdM, dUdw, dUdO)], fn, mutated) as arrays (j=None) or for element j.
+    canonical=False: the case's input routes (frequency | period per quantity, None vs (None, None) tuples, quick_* or
+    *_from_dict_or_world_instance entry point); canonical=True: quick_* with every quantity as a frequency."""
+    k = su.k if j is None else 1
+    name, fn, kw = _build(su, j, canonical)
+    res = tc.call_repo(name, fn, **kw)
+    per = [res['host'], res['secondary']] if su.dual else [res]
     out = {'da': _full(res['semi_major_axis_derivative'], k), 'de': _full(res['eccentricity_derivative'], k), 'bodies': [],
-           'fn': name, 'mutated': list(tc.LAST_MUTATION)}
+           'fn': name, 'mutated': list(tc.LAST_MUTATION), 'kw': kw}
     for r in per:
         out['bodies'].append({'heating': _full(r['tidal_heating'], k), 'dspin': _full(r['spin_rate_derivative'], k),
                               'dUdM': _full(r['dUdM'], k), 'dUdw': _full(r['dUdw'], k), 'dUdO': _full(r['dUdO'], k)})
@@ -307,6 +309,34 @@ def _evaluate(case):
                     return discard('excluded_known_finding', lab)
                 raise
             compare('array', one, j, 0, 'array call vs scalar call')
+    # ---- call history: the same ndarray objects re-used after being overwritten in place (tides_common.history_check) --------
+    if su.as_array:
+        def make_call(su_s, kw, build_only=False):
+            name, fn, kw2 = _build(su_s)
+            if kw is None:
+                if build_only:
+                    return kw2
+                return kw2, tc.call_repo(name, fn, **kw2)
+            return tc.call_repo(name, fn, **kw)
+
+        def known(ex):
+            return isinstance(ex.exc, ZeroDivisionError) and 'complex division' in str(ex.exc) \
+                and any(b.rheology == 'newton' for b in bodies)
+
+        def extra(su_s, res, step):
+            de_s = _full(res['eccentricity_derivative'], su_s.k)
+            zero_e = su_s.e == 0.0
+            if np.any(zero_e):
+                c.check(bool(np.all(np.isfinite(de_s)) and np.all(de_s[zero_e] == 0.0)), {'clause': 'e_zero', 'route': 'history'},
+                        'history call %d with e=%r: de/dt=%r' % (step + 2, su_s.e.tolist(), de_s))
+        # the array-vs-scalar / canonical comparison calls above evaluated other inputs; repeat the routed array call once so that
+        # the history sequence starts from a call with exactly these array objects
+        try:
+            first = _call(su)
+        except RepoRaised:
+            first = None
+        if first is not None:
+            tc.history_check(c, case, dual, first['kw'], make_call, out['fn'], is_known=known, extra=extra)
     return c.result()
 
 
